@@ -1,0 +1,130 @@
+// +build verif,linux
+
+// Verification hooks (build tag "verif"): an unprivileged constructor and
+// accessors used by the runtime-monitoring harness. Not compiled otherwise.
+package canary
+
+import (
+	"fmt"
+	"math/rand"
+	"net"
+	"sync"
+	"syscall"
+	"time"
+
+	"github.com/glycerine/rbuf"
+	"github.com/honeytrap/honeytrap/listener/canary/ethernet"
+	"github.com/honeytrap/honeytrap/listener/canary/ipv4"
+	"github.com/honeytrap/honeytrap/pushers"
+)
+
+// NewVerif builds the same Canary New builds, but on an unprivileged epoll
+// instance plus an AF_UNIX datagram socketpair instead of AF_PACKET sockets.
+// Frames written to the returned descriptor flow through the real Start() loop.
+func NewVerif(ifc net.Interface, ac ARPCache, rt RouteTable, ev pushers.Channel) (*Canary, int, error) {
+	epfd, err := syscall.EpollCreate1(0)
+	if err != nil {
+		return nil, -1, fmt.Errorf("epoll_create1: %s", err.Error())
+	}
+
+	fds, err := syscall.Socketpair(syscall.AF_UNIX, syscall.SOCK_DGRAM, 0)
+	if err != nil {
+		syscall.Close(epfd)
+		return nil, -1, fmt.Errorf("socketpair: %s", err.Error())
+	}
+
+	l := &Canary{
+		ac:                ac,
+		rt:                rt,
+		epfd:              epfd,
+		descriptors:       map[string]int32{},
+		networkInterfaces: []net.Interface{},
+		r:                 rand.New(rand.NewSource(time.Now().UTC().UnixNano())),
+		knockChan:         make(chan interface{}, 100),
+		events:            ev,
+		m:                 sync.Mutex{},
+		ch:                make(chan net.Conn),
+		buffer:            rbuf.NewFixedSizeRingBuf(65535),
+	}
+
+	if err = syscall.EpollCtl(epfd, syscall.EPOLL_CTL_ADD, fds[0], &syscall.EpollEvent{
+		Events: syscall.EPOLLIN | syscall.EPOLLERR,
+		Fd:     int32(fds[0]),
+	}); err != nil {
+		return nil, -1, fmt.Errorf("epollctl: %s", err.Error())
+	}
+
+	l.descriptors[ifc.Name] = int32(fds[0])
+	l.networkInterfaces = append(l.networkInterfaces, ifc)
+
+	return l, fds[1], nil
+}
+
+// VerifInject runs the receive loop's parse-and-dispatch on one frame,
+// synchronously in the caller's goroutine.
+func (c *Canary) VerifInject(frame []byte) error {
+	buffer := make([]byte, len(frame))
+	copy(buffer, frame)
+
+	eh, err := ethernet.Parse(buffer)
+	if err != nil {
+		return err
+	}
+
+	if eh.Type == EthernetTypeARP && c.doARP {
+		data := make([]byte, len(eh.Payload))
+		copy(data, eh.Payload[:])
+		return c.handleARP(data)
+	} else if eh.Type != EthernetTypeIPv4 {
+		return nil
+	}
+
+	iph, err := ipv4.Parse(eh.Payload[:])
+	if err != nil {
+		return err
+	}
+
+	data := make([]byte, len(iph.Payload))
+	copy(data, iph.Payload[:])
+
+	switch iph.Protocol {
+	case 1:
+		return c.handleICMP(eh, iph, data)
+	case 6:
+		return c.handleTCP(eh, iph, data)
+	case 17:
+		return c.handleUDP(eh, iph, data)
+	}
+	return nil
+}
+
+// VerifDrainTx pops the length-prefixed frames queued in the transmit ring,
+// exactly as transmit() does minus the sendto.
+func (c *Canary) VerifDrainTx() [][]byte {
+	var frames [][]byte
+	for {
+		buff := [2]byte{}
+		if _, err := c.buffer.ReadAndMaybeAdvance(buff[:], true); err != nil {
+			break
+		}
+		n := uint32(buff[0])<<8 + uint32(buff[1])
+		frame := make([]byte, n)
+		m, err := c.buffer.Read(frame)
+		if err != nil {
+			break
+		}
+		frames = append(frames, frame[:m])
+	}
+	return frames
+}
+
+// VerifStates returns the number of occupied slots of the state table.
+func (c *Canary) VerifStates() int {
+	n := 0
+	for _, s := range c.stateTable {
+		if s != nil {
+			n++
+		}
+	}
+	return n
+}
